@@ -603,8 +603,28 @@ def r9_index_errors_are_classified_in_one_order(ctx):
     ctx.floor("Index-out-of-bounds answers next to a wholeness test", n, 2)
 
 
+def r10_built_in_methods_do_what_the_documents_say(ctx):
+    """`The documented built-in functions and methods`: shared with C13-R5 (join writes a separator before every element but
+    the first, by position) and C13-R7 (the thin string wrappers apply their one library primitive to the whole receiver)."""
+    from .c13 import r5_units_and_positions, r7_thin_wrappers_apply_their_primitive_to_everything
+    r5_units_and_positions(ctx)
+    r7_thin_wrappers_apply_their_primitive_to_everything(ctx)
+
+
+def r11_pruning_and_typing_leave_results_alone(ctx):
+    """What a program prints must not depend on the optimiser or on an over-confident checker.  Shared with C03-R4 (the
+    liveness transfer function: a statement's own reads are noted before its own writes, kills before gens), C03-R4f (fact
+    sets are deduplicated against themselves) and C09-R11 (a function that can fall off its end may return null: `always
+    returns` is a must-analysis, or valid callers are rejected)."""
+    from .c03 import r4_dataflow_shape, r4f_a_set_is_deduplicated_against_itself
+    from .c09 import r11_always_returns_is_a_must_analysis
+    r4_dataflow_shape(ctx)
+    r4f_a_set_is_deduplicated_against_itself(ctx)
+    r11_always_returns_is_a_must_analysis(ctx)
+
+
 RULES = [("C01-R1", r1_keyword_chain), ("C01-R2", r2_precedence), ("C01-R3", r3_operator_meaning), ("C01-R4", r4_order_shortcircuit_zero),
-         ("C01-R5", r5_builtin_tables), ("C01-R6", r6_truthiness_and_printing), ("C01-R7", r7_loop_control), ("C01-R8", r8_template_escapes_everywhere), ("C01-R9", r9_index_errors_are_classified_in_one_order)]
+         ("C01-R5", r5_builtin_tables), ("C01-R6", r6_truthiness_and_printing), ("C01-R7", r7_loop_control), ("C01-R8", r8_template_escapes_everywhere), ("C01-R9", r9_index_errors_are_classified_in_one_order), ("C01-R10", r10_built_in_methods_do_what_the_documents_say), ("C01-R11", r11_pruning_and_typing_leave_results_alone)]
 
 EXPLANATION = (
     "Thin by design: output equality with a reference semantics over all programs is not decidable in this family (there is no "
